@@ -19,7 +19,13 @@ pub fn generate_qa_report(
 
     qa_report.push_str((overview_section + "\n").as_str());
 
-    for item in qa_items {
+    //Render in a fixed order: patterns by enum discriminant, entries by (file, lines)
+    let mut qa_items: Vec<_> = qa_items.into_iter().collect();
+    qa_items.sort_by_key(|entry| entry.0 as usize);
+
+    for mut item in qa_items {
+        item.1.sort();
+
         if item.1.len() > 0 {
             let qa_target = item.0;
             let matches = item.1;
